@@ -27,9 +27,9 @@ DECLS = {
                      ('z', (-4, -1))],
                twins=[('b2', 'bool'), ('x2', (0, 2)), ('x3', (0, 2)),
                       ('y2', (-2, 1)), ('z2', (-4, -1))]),
-    'D2': dict(base=[('c', 'bool'), ('u', (0, 1)), ('v', (-3, 3)),
+    'D2': dict(base=[('req', 'bool'), ('u', (0, 1)), ('v', (-3, 3)),
                      ('w', (-1, -1))],
-               twins=[('c2', 'bool'), ('u2', (0, 1)), ('u3', (0, 1)),
+               twins=[('req2', 'bool'), ('u2', (0, 1)), ('u3', (0, 1)),
                       ('v2', (-3, 3)), ('w2', (-1, -1))]),
 }
 MENU = {
@@ -37,16 +37,16 @@ MENU = {
            "b /\\ (x = y + 1)", "(x + y = z + 4) \\/ ~ b", "x > y /\\ z < y",
            "(y = -3) \\/ (x = 3)", "b <=> (z = -5)", "x # 3 => (y = 1)",
            "(x \\in 1..2) /\\ (z \\in -3..-2)"],
-    'D2': ["TRUE", "FALSE", "c", "u = 1", "v < 0", "w = -2",
-           "c /\\ (v = u + 1)", "(v + w = 2) \\/ ~ c", "v > u",
-           "(v = -4) \\/ (w = -1)", "c <=> (u = 0)", "v # 3 => (w = -1)",
+    'D2': ["TRUE", "FALSE", "req", "u = 1", "v < 0", "w = -2",
+           "req /\\ (v = u + 1)", "(v + w = 2) \\/ ~ req", "v > u",
+           "(v = -4) \\/ (w = -1)", "req <=> (u = 0)", "v # 3 => (w = -1)",
            "v \\in -2..2"],
 }
 RMENU = {   # predicates that involve twins, for renaming
     'D1': ["x < x2", "(x = 1) /\\ b /\\ ~ b2", "y + 1 = y2",
            "(z2 # z) \\/ b", "(x2 = x3 + 1) /\\ (x <= x3)"],
-    'D2': ["u < u2", "(u = 1) /\\ c /\\ ~ c2", "v + 1 = v2",
-           "(w2 # w) \\/ c", "(u2 # u3) /\\ (u <= u3)"],
+    'D2': ["u < u2", "(u = 1) /\\ req /\\ ~ req2", "v + 1 = v2",
+           "(w2 # w) \\/ req", "(u2 # u3) /\\ (u <= u3)"],
 }
 APPLY = [('not', 1), ('and', 2), ('or', 2), ('xor', 2), ('=>', 2),
          ('<=>', 2), ('diff', 2), ('ite', 3), ('&', 2), ('|', 2), ('^', 2),
